@@ -165,3 +165,48 @@ Proof.
   - intros its k x Hk NI. rewrite map_map. rewrite (map_nth_error _ _ _ Hk).
     rewrite (number_unknown_l items x NI). reflexivity.
 Qed.
+
+(* ---------------- item lists numbered against a vocabulary of their own ---------------- *)
+Lemma ilist_numbers_denotes : forall (target : vocab) l its,
+  denotes l its -> ilist_numbers target l = map (number target) its.
+Proof.
+  intros target [a|own nums] its H; cbn [denotes ilist_numbers] in *.
+  - subst a. reflexivity.
+  - induction H as [|n x nums its Hn _ IH]; [reflexivity|].
+    cbn [map]. unfold via_own at 1. rewrite Hn. f_equal. exact IH.
+Qed.
+
+Lemma map_fst_combine_fn {A B C} (f : A -> C) (a : list A) : forall (b : list B),
+  map (fun p => (f (fst p), snd p)) (combine a b) = combine (map f a) b.
+Proof.
+  induction a as [|x a IH]; intros [|y b]; cbn [combine map fst snd]; try reflexivity.
+  rewrite IH. reflexivity.
+Qed.
+
+Lemma list_vocabulary_irrelevant_l : forall (items : vocab) l its, denotes l its ->
+  ilist_numbers items l = map (number items) its /\
+  (forall sc, pop_call_list items sc l = pop_call_ids items sc its) /\
+  (forall m d users qu, bias_scores_list m d users items qu None l
+     = bias_scores_ids m d users items {| iq_user := qu; iq_hist := None |} its) /\
+  (forall m d users qu hl hits hr, denotes hl hits ->
+     bias_scores_list m d users items qu (Some (hl, hr)) l
+     = bias_scores_ids m d users items {| iq_user := qu; iq_hist := Some (combine hits hr) |} its).
+Proof.
+  intros items l its H. pose proof (ilist_numbers_denotes items l its H) as E.
+  split; [exact E|]. split; [|split].
+  - intro sc. unfold pop_call_list, pop_call_ids. rewrite E. reflexivity.
+  - intros m d users qu. unfold bias_scores_list, bias_scores_ids, resolve_query.
+    cbn [iq_user iq_hist option_map]. rewrite E. reflexivity.
+  - intros m d users qu hl hits hr Hh. unfold bias_scores_list, bias_scores_ids, resolve_query.
+    cbn [iq_user iq_hist option_map fst snd]. rewrite E.
+    rewrite (ilist_numbers_denotes items hl hits Hh). rewrite map_fst_combine_fn. reflexivity.
+Qed.
+
+(* two lists that stand for the same identifiers -- against any two vocabularies, of equal length or not --
+   resolve to the same numbers of the target vocabulary *)
+Lemma same_identifiers_same_numbers_l : forall (target : vocab) l1 l2 its,
+  denotes l1 its -> denotes l2 its -> ilist_numbers target l1 = ilist_numbers target l2.
+Proof.
+  intros target l1 l2 its H1 H2.
+  rewrite (ilist_numbers_denotes target l1 its H1), (ilist_numbers_denotes target l2 its H2). reflexivity.
+Qed.
